@@ -30,11 +30,11 @@ case "$ID" in
   C09) GD="spellings grammar-mutants check-report" ;;
   C10) GD="rand-pairs rand-triples max-tag" ;;
   C11) GD="rand-pairs rand-triples max-tag" ;;
-  C12) GD="roundtrip one-rule-broken malformed-documents" ;;
+  C12) GD="roundtrip one-rule-broken trailing-content malformed-documents" ;;
   C13) GD="argv-fuzz" ;;
   C15) GD="context-vs-renderer function-contracts template-valued-flags literal-context" ;;
   C16) GD="rand-unicode presets template-fn" ;;
-  C17) GD="rand-instants cli-calver" ;;
+  C17) GD="rand-instants beyond-i64 cli-calver" ;;
   *) GD="" ;;
 esac
 [ -n "${VERIF_NO_GD:-}" ] && GD=""
@@ -62,7 +62,7 @@ GDRUNS="${VERIF_GD_RUNS:-$((RUNS / 16))}"
 # run at 100-400/s under instrumentation, parsers and comparators at 3000-6000/s)
 gd_div() {
   case "$ID:$1" in
-    C01:*|C03:*|C04:*|C05:*|C12:roundtrip|C12:one-rule-broken|C13:*|C15:context-vs-renderer|C15:template-valued-flags) echo 16 ;;
+    C01:*|C03:*|C04:*|C05:*|C12:roundtrip|C12:one-rule-broken|C12:trailing-content|C13:*|C15:context-vs-renderer|C15:template-valued-flags) echo 16 ;;
     C06:*|C12:malformed-documents|C15:function-contracts|C15:literal-context|C16:template-fn) echo 4 ;;
     *) echo 1 ;;
   esac
